@@ -1136,6 +1136,56 @@ variant("reset-also-clears-binarymime",
 
 	if c.session != nil {
 		c.session.Reset()"""))
+variant("bdat-empty-chunk-shortcut",
+  ("conn.go", """	// The chunk is binary data, not lines. The limit must be back in place
+	// for the next command line whatever happens below.
+	c.lineLimitReader.LineLimit = 0""", """	if size == 0 && !last {
+		// nothing to hand over
+		c.writeResponse(250, EnhancedCode{2, 0, 0}, "Continue")
+		return
+	}
+
+	// The chunk is binary data, not lines. The limit must be back in place
+	// for the next command line whatever happens below.
+	c.lineLimitReader.LineLimit = 0"""))
+variant("timeouts-gt-zero",
+  ("conn.go", """	if c.server.WriteTimeout != 0 {
+		c.conn.SetWriteDeadline(time.Now().Add(c.server.WriteTimeout))
+	}""", """	if c.server.WriteTimeout > 0 {
+		c.conn.SetWriteDeadline(time.Now().Add(c.server.WriteTimeout))
+	}"""),
+  ("conn.go", """	if c.server.ReadTimeout != 0 {
+		if err := c.conn.SetReadDeadline(""", """	if c.server.ReadTimeout > 0 {
+		if err := c.conn.SetReadDeadline("""),
+  ("server.go", """		if d := s.WriteTimeout; d != 0 {""", """		if d := s.WriteTimeout; d > 0 {"""))
+variant("data-envelope-guard-split",
+  ("conn.go", """	if !c.fromReceived || len(c.recipients) == 0 {
+		c.writeResponse(502, EnhancedCode{5, 5, 1}, "Missing RCPT TO command.")
+		return
+	}
+
+	// We have recipients, go to accept data""", """	if len(c.recipients) == 0 {
+		c.writeResponse(502, EnhancedCode{5, 5, 1}, "Missing RCPT TO command.")
+		return
+	}
+	if !c.fromReceived {
+		c.writeResponse(502, EnhancedCode{5, 5, 1}, "Missing MAIL FROM command.")
+		return
+	}
+
+	// We have recipients, go to accept data"""))
+variant("mail-size-formatint",
+  ("client.go", """		fmt.Fprintf(&sb, " SIZE=%v", opts.Size)""", """		sb.WriteString(" SIZE=" + strconv.FormatInt(opts.Size, 10))"""))
+variant("close-index-loop",
+  ("client.go", """		for expectedResponses > 0 {
+			rcpt := d.c.rcpts[len(d.c.rcpts)-expectedResponses]""", """		for ; expectedResponses > 0; expectedResponses-- {
+			rcpt := d.c.rcpts[len(d.c.rcpts)-expectedResponses]"""),
+  ("client.go", """				d.statusCb(rcpt, nil)
+			}
+			expectedResponses--
+		}""", """				d.statusCb(rcpt, nil)
+			}
+		}"""))
 if sys.argv[1:] == ['--export']:
     out = [{"id": "benign-" + n, "edits": [{"file": f, "old": o, "new": w} for f, o, w in V[n]]} for n in V]
     json.dump(out, open('/verif/liveness/benign.json', 'w'), indent=1)
